@@ -43,11 +43,12 @@ orc_target_get_by_name (const char *name)
 OrcTarget *
 orc_target_get_default (void)
 {
-  const char *const envvar = _orc_getenv ("ORC_BACKEND");
+  char *const envvar = _orc_getenv ("ORC_BACKEND");
 
   if (envvar != NULL) {
     OrcTarget *const target = orc_target_get_by_name (envvar);
 
+    free (envvar);
     if (target != NULL)
       return target;
   }
